@@ -809,7 +809,9 @@ class FnEmit:
 def cstring(s):
     bs = []; i = 0
     while i < len(s):
-        if s[i] == '\\':
+        if s[i] == '\\' and s[i+1:i+2] == '\\':
+            bs.append(0x5C); i += 2          # LLVM prints a backslash as \\\\
+        elif s[i] == '\\':
             bs.append(int(s[i+1:i+3], 16)); i += 3
         else: bs.append(ord(s[i])); i += 1
     return bs
